@@ -37,6 +37,7 @@ def jobs(tier, seed):
         hdrs = [[]] + c02.orders()
     for hd in hdrs:
         J.append(dict(name="bec2:%s" % ("+".join(hd) or "noblocks"), kind="bec2", blocks=hd, shape=[shapes.comp(3, [(0xC3, 1)]), shapes.comp(17, [(0xC2, 1)], enc=True)], timeout=900, cost=300))
+    J.append(dict(name="history:rewrite-after-tag-edit", kind="rewrite", shape=[shapes.comp(3, [(0xC3, 1)]), shapes.comp(17, [(0xC1, 1)])], timeout=900, cost=150))
     J.append(dict(name="bf3:twin", kind="bf3", shape=[shapes.comp(17, [(0xC1, 1)])], twin=True, expect="violated", timeout=300))
     J.append(dict(name="bf3:model-sanity-iv0", kind="bf3", shape=[shapes.comp(17, [(0xC1, 1)]), shapes.comp(2, [])], wrong_model="iv0", expect="violated", timeout=300))
     for lemma in ("T1-lines", "T2-alphabet", "T5-io-literals"):
@@ -110,7 +111,32 @@ def run_job(job):
             model.append((stored, al, tags))
         return comps, model
 
-    if job["kind"] == "bf3":
+    if job["kind"] == "rewrite":
+        def h():
+            # the same object written, edited (tag list of a component grows/shrinks, count unchanged) and
+            # written again: every write must be the layout of the object's *current* content
+            key = sym.sym_bytes("key", 16)
+            off = sym.sym_int("off", 0, 65537)
+            vals = dict(key=key, off=off)
+            comps, model = build(vals)
+            runner.track(vals)
+            f = bf.Bf3File({}, comps)
+            first = f.to_binary(off, key)
+            ok = first == model_bf3(stubs, model, off, key)
+            newv = sym.sym_bytes("newtag", 5)
+            comps[0].description[0xC8] = newv
+            model[0] = (model[0][0], model[0][1], model[0][2] + [(0xC8, newv)])
+            second = f.to_binary(off, key)
+            ok = ok and second == model_bf3(stubs, model, off, key)
+            del comps[1].description[0xC1]
+            model[1] = (model[1][0], model[1][1], [])
+            third = f.to_binary(off, key)
+            ok = ok and third == model_bf3(stubs, model, off, key)
+            if not ok:
+                runner.record_witness(**vals)
+            return ok
+
+    elif job["kind"] == "bf3":
         def h():
             key = sym.sym_bytes("key", 16)
             off = sym.sym_int("off", 0, 65537)
@@ -212,6 +238,15 @@ def replay(job):
         comps.append(bf.Bf3Component(dict(tags), p, al, encrypt_by_session_key=bool(c.get("enc"))))
         stored = RealStubs.model_cbc_encrypt(key, None, p + bytes(-len(p) % 16)) if c.get("enc") else p
         model.append((stored, al, tags))
+    if job["kind"] == "rewrite":
+        off = w.get("off", 0)
+        f = bf.Bf3File({}, comps)
+        f.to_binary(off, key)
+        comps[0].description[0xC8] = b"12345"
+        model[0] = (model[0][0], model[0][1], model[0][2] + [(0xC8, b"12345")])
+        second = f.to_binary(off, key)
+        want = model_bf3(RealStubs, model, off, key)
+        return dict(reproduced=second != want, signature="C03:layout", detail="second write after adding a tag: payload offsets %s, documented layout %s" % (second[9:14].hex(), want[9:14].hex()))
     if job["kind"] == "bf3":
         off = w.get("off", 0)
         real = bf.Bf3File({}, comps).to_binary(off, key)
